@@ -2783,6 +2783,14 @@ XPathProcessorImpl::LocationPathPattern()
         m_expression->updateOpCodeLength(newOpPos);
 
         nextToken();
+
+        if (expectRelativePathPattern == true &&
+            tokenIs(XalanUnicode::charSolidus) == true)
+        {
+            // Both tokens of the '//' are gone, so the step can't
+            // start with another '/'...
+            error(XalanMessages::ExpectedNodeTest);
+        }
     }
 
     if(m_token.empty() == false &&
